@@ -38,7 +38,16 @@ def main(argv=None):
     try:
         prog = Program(root=args.repo)
         chk = Check(pid, args.tier, seed)
-        mod.run(prog, chk)
+        try:
+            mod.run(prog, chk)
+        except AnalysisError as e:
+            if not chk.violations:
+                raise
+            # violations already established on recognised constructs stand;
+            # the part of the analysis that could not proceed is reported too
+            print("ANALYSIS-ERROR property=%s anchor=%s %s (after %d violation(s))" % (
+                pid, e.anchor, e.detail, len(chk.violations)))
+            chk.note("analysis incomplete: %s %s" % (e.anchor, e.detail))
         if args.tier == "thorough" and hasattr(mod, "thorough"):
             mod.thorough(prog, chk)
         if args.replay:
